@@ -13,6 +13,97 @@ from . import common, regionrules
 PID = "C08"
 
 
+def guard_leave_rule(rep, r3, m, dequeue_only=False):
+    """The unwinding of cmb_resourceguard_wait after the resume (shared: R-C08-3, and its dequeue clause R-C13-7)."""
+    w = m.need("cmb_resourceguard_wait")
+    rg = w.params[0]["name"]
+    paths = {"n": 0}
+
+    def after_resume(dom, flow, st, tr, why, where, ev):
+        if not tr or tr[0][0] != "resume" or not why.startswith("return"):
+            return
+        # classify the path by the branch facts taken after the resume
+        # the set of resume codes this path can be taken with, from its tests of the yielded value (any comparison)
+        tests = []
+        for e in tr:
+            if e[0] != "assume":
+                continue
+            mm = re.fullmatch(r"\(cmi_coroutine_yield\(NULL\) (!=|==|<|<=|>|>=) (\S+)\)", e[1])
+            flip = False
+            if not mm:
+                mm2 = re.fullmatch(r"\((\S+) (!=|==|<|<=|>|>=) cmi_coroutine_yield\(NULL\)\)", e[1])
+                if mm2:
+                    mm, flip = mm2, True
+            if not mm:
+                continue
+            op, tok = (mm.group(1), mm.group(2)) if not flip else (mm.group(2), mm.group(1))
+            k = 0 if tok == "NULL" else common.sigval(tok)
+            if k is None:
+                continue
+            if flip:
+                op = {"<": ">", ">": "<", "<=": ">=", ">=": "<="}.get(op, op)
+            tests.append((op, k, bool(e[2])))
+        if not tests:
+            raise AnalysisBroken("cmb_resourceguard_wait: cannot find the test of the resume signal")
+        import operator
+        OPS = {"!=": operator.ne, "==": operator.eq, "<": operator.lt, "<=": operator.le, ">": operator.gt, ">=": operator.ge}
+        cands = set(range(-8, 3)) | {17, 1 << 40, -(1 << 40)}
+        for _, k, _t in tests:
+            cands |= {k - 1, k, k + 1}
+        allowed = {v for v in cands if all(OPS[op](v, k) == t for op, k, t in tests)}
+        # a path that admits any code besides success has the obligations of an abnormal exit
+        succ = allowed <= {0}
+        calls = [e for e in tr if e[0] == "call"]
+        names = [c[1] for c in calls]
+        paths["n"] += 1
+        if succ:
+            return
+        canc = [c for c in calls if c[1] in ("cmi_hashheap_cancel", "cmi_hashheap_remove") and
+                (c[2][0] == rg or common.same_object(m, c[2][0], rg))]
+        r3.instance("abnormal exit path: %s" % " ; ".join(TR.fmt(tr, 8)))
+        if not canc:
+            rep.finding(r3, w.name, "leave:no-dequeue", "a waiter leaving for another reason stays in the waiting list",
+                        where=where)
+            r3.fail()
+            return
+        r3.ok()
+        if dequeue_only:
+            return
+        # was the process still queued?  (the cancel's result)
+        still = None
+        for e in tr:
+            if e[0] == "assume" and e[1] in (canc[0][5], "!" + canc[0][5]):
+                still = e[2]
+        if still is None:
+            # result ignored: treat as 'maybe not queued', the obligations below apply
+            still = False
+        if still:
+            return
+        withdraw = any(c[1] == "cmb_event_pattern_cancel" and len(c[2]) >= 2 and c[2][1] == "cmb_process_current()"
+                       for c in calls)
+        handover = any(c[1] == "cmb_resourceguard_signal" and c[2][0] == rg for c in calls)
+        rep.sample({"rule": "R-C08-3", "path": TR.fmt(tr, 10), "withdraw": withdraw, "handover": handover})
+        if not withdraw:
+            rep.finding(r3, w.name, "leave:no-withdraw", "on a path where the leaving waiter was no longer queued (grant "
+                        "pending) the pending wake-up is not withdrawn: it later resumes the process out of an unrelated "
+                        "wait", where=where)
+            r3.fail()
+        else:
+            r3.ok()
+        if not handover:
+            rep.finding(r3, w.name, "leave:no-handover", "on a path where the leaving waiter was no longer queued the "
+                        "guard is not signalled again: a grant made to it in the same instant is lost instead of being "
+                        "passed to the next waiter (path: %s)" % " ; ".join(TR.fmt(tr, 6)), where=where)
+            r3.fail()
+        else:
+            r3.ok()
+
+    TR.run_traces(m, w, after_resume)
+    if paths["n"] < 2:
+        raise AnalysisBroken("cmb_resourceguard_wait: fewer than two paths after the resume")
+
+
+
 def rules(rep, m):
     res = region.analyse(m)
     SIG = common.signal_table(m)
@@ -80,68 +171,7 @@ def rules(rep, m):
     r3 = rep.rule("R-C08-3", "a waiter that leaves cmb_resourceguard_wait with a signal other than success removes "
                   "itself from the queue, and if it had already been taken off (grant pending) withdraws the pending "
                   "wake-up and signals the guard again so the grant is passed on", floor=1)
-    w = m.need("cmb_resourceguard_wait")
-    rg = w.params[0]["name"]
-    paths = {"n": 0}
-
-    def after_resume(dom, flow, st, tr, why, where, ev):
-        if not tr or tr[0][0] != "resume" or not why.startswith("return"):
-            return
-        # classify the path by the branch facts taken after the resume
-        succ = None
-        for e in tr:
-            if e[0] == "assume" and (re.fullmatch(r"\(cmi_coroutine_yield\(NULL\) (!=|==) (NULL|0)\)", e[1]) or
-                                     re.fullmatch(r"\((NULL|0) (!=|==) cmi_coroutine_yield\(NULL\)\)", e[1])):
-                ne = "!=" in e[1]
-                succ = (not e[2]) if ne else e[2]
-        if succ is None:
-            raise AnalysisBroken("cmb_resourceguard_wait: cannot find the test of the resume signal")
-        calls = [e for e in tr if e[0] == "call"]
-        names = [c[1] for c in calls]
-        paths["n"] += 1
-        if succ:
-            return
-        canc = [c for c in calls if c[1] in ("cmi_hashheap_cancel", "cmi_hashheap_remove") and
-                (c[2][0] == rg or common.same_object(m, c[2][0], rg))]
-        r3.instance("abnormal exit path: %s" % " ; ".join(TR.fmt(tr, 8)))
-        if not canc:
-            rep.finding(r3, w.name, "leave:no-dequeue", "a waiter leaving for another reason stays in the waiting list",
-                        where=where)
-            r3.fail()
-            return
-        r3.ok()
-        # was the process still queued?  (the cancel's result)
-        still = None
-        for e in tr:
-            if e[0] == "assume" and e[1] in (canc[0][5], "!" + canc[0][5]):
-                still = e[2]
-        if still is None:
-            # result ignored: treat as 'maybe not queued', the obligations below apply
-            still = False
-        if still:
-            return
-        withdraw = any(c[1] == "cmb_event_pattern_cancel" and len(c[2]) >= 2 and c[2][1] == "cmb_process_current()"
-                       for c in calls)
-        handover = any(c[1] == "cmb_resourceguard_signal" and c[2][0] == rg for c in calls)
-        rep.sample({"rule": "R-C08-3", "path": TR.fmt(tr, 10), "withdraw": withdraw, "handover": handover})
-        if not withdraw:
-            rep.finding(r3, w.name, "leave:no-withdraw", "on a path where the leaving waiter was no longer queued (grant "
-                        "pending) the pending wake-up is not withdrawn: it later resumes the process out of an unrelated "
-                        "wait", where=where)
-            r3.fail()
-        else:
-            r3.ok()
-        if not handover:
-            rep.finding(r3, w.name, "leave:no-handover", "on a path where the leaving waiter was no longer queued the "
-                        "guard is not signalled again: a grant made to it in the same instant is lost instead of being "
-                        "passed to the next waiter (path: %s)" % " ; ".join(TR.fmt(tr, 6)), where=where)
-            r3.fail()
-        else:
-            r3.ok()
-
-    TR.run_traces(m, w, after_resume)
-    if paths["n"] < 2:
-        raise AnalysisBroken("cmb_resourceguard_wait: fewer than two paths after the resume")
+    guard_leave_rule(rep, r3, m)
 
     # R-C08-4 ------------------------------------------------------------
     r4 = rep.rule("R-C08-4", "interrupting, stopping or ending a process removes it from every waiting list: the "
